@@ -535,7 +535,8 @@ def _hashable_node(nodes, j):
 
 _key_payload = st.tuples(st.sampled_from(['s', 's', 's', 'i', 'n', 't', 'b', 'f', 'z', 'u']), st.integers(0, 5)).map(list)
 _str_key_payload = st.tuples(st.sampled_from(['s', 's', 'u']), st.integers(0, 5)).map(list)
-_attr_names = st.sampled_from(['x', 'y', 'name', '_prot', '_Plain__priv', '__dunder__', 'z9'])
+_attr_names = st.sampled_from(['x', 'y', 'name', '_prot', '_Plain__priv', '__dunder__', 'z9', '_Plain_id', '_Plains',
+                               '_id', 's'])
 
 
 def node_strategy(kinds, max_items=5, str_keys_only=False, max_ref=40):
